@@ -222,6 +222,9 @@ func (t *Tokenizer) tokenizeBuffer(buf []byte, last bool) error {
 				continue
 			}
 		case numComma:
+			if len(t.starts) == 0 {
+				return t.newError(off, "unexpected comma")
+			}
 			t.handleNum()
 			if 0 < len(t.starts) && t.starts[len(t.starts)-1] == '{' {
 				t.mode = keyMap
